@@ -35,7 +35,8 @@ type pathRun struct {
 	reached map[string]bool
 	observe map[string]string
 	nondets []nondetRec // declaration order
-	choices []int
+	choices []int // every structural choice (harness, schedule, range order)
+	hchoices []int // the harness' own verifrt.Choice calls only (what a native run consumes)
 	asserts int // assertions discharged on this path
 	trivial int // assertions that were concretely true
 	queries int
@@ -53,7 +54,8 @@ type Violation struct {
 	Harness string            `json:"harness"`
 	Observe map[string]string `json:"observe,omitempty"`
 	Model   map[string]uint64 `json:"model"`
-	Choices []int             `json:"choices"`
+	Choices []int             `json:"choices"`     // harness choices (native replay)
+	AllChoices []int          `json:"all_choices"` // incl. schedule and range orders (executor replay)
 	Trace   string            `json:"trace,omitempty"`
 	Known   string            `json:"known,omitempty"`
 	Replay  string            `json:"replay,omitempty"`
@@ -118,6 +120,7 @@ type Explorer struct {
 type Witness struct {
 	Model   map[string]uint64
 	Choices []int
+	AllChoices []int
 	Trace   string
 }
 
@@ -290,7 +293,7 @@ func (e *Explorer) runPath(spec pathSpec, solver *Solver) {
 		if need {
 			res, m := i.solver.Check(nil, e.cfg.AssertTimeout, i.tt.vars)
 			if res == "sat" {
-				w := Witness{Model: map[string]uint64{}, Choices: append([]int{}, i.run.choices...), Trace: strings.Join(i.run.samples, "; ")}
+				w := Witness{Model: map[string]uint64{}, Choices: append([]int{}, i.run.hchoices...), AllChoices: append([]int{}, i.run.choices...), Trace: strings.Join(i.run.samples, "; ")}
 				for _, t := range i.tt.vars {
 					w.Model[t.Name] = m[t.Name]
 				}
@@ -535,6 +538,9 @@ func (i *interpreter) choose(n int, what string) int {
 			panic(pathEnd{"replay-diverged"})
 		}
 		r.choices = append(r.choices, c)
+		if strings.HasPrefix(what, "h:") {
+			r.hchoices = append(r.hchoices, c)
+		}
 		return c
 	}
 	if d, ok := i.nextPrefix("c", what); ok {
@@ -543,6 +549,9 @@ func (i *interpreter) choose(n int, what string) int {
 		}
 		r.trace = append(r.trace, d)
 		r.choices = append(r.choices, int(d.V))
+		if strings.HasPrefix(what, "h:") {
+			r.hchoices = append(r.hchoices, int(d.V))
+		}
 		return int(d.V)
 	}
 	for k := n - 1; k >= 1; k-- {
@@ -551,6 +560,9 @@ func (i *interpreter) choose(n int, what string) int {
 	}
 	r.trace = append(r.trace, decision{Kind: 'c', N: n, V: 0, What: what})
 	r.choices = append(r.choices, 0)
+	if strings.HasPrefix(what, "h:") {
+		r.hchoices = append(r.hchoices, 0)
+	}
 	return 0
 }
 
@@ -817,7 +829,8 @@ func (i *interpreter) reportViolation(label string, m map[string]uint64) {
 			v.Model[t.Name] = m[t.Name]
 		}
 	}
-	v.Choices = append([]int{}, i.run.choices...)
+	v.Choices = append([]int{}, i.run.hchoices...)
+	v.AllChoices = append([]int{}, i.run.choices...)
 	v.Trace = strings.Join(i.run.samples, "; ")
 	if kf := i.matchKnown(label); kf != nil {
 		v.Known = kf.What
